@@ -4,6 +4,7 @@ import (
 	"fmt"
 	"go/token"
 	"os"
+	"sort"
 	"strings"
 
 	"golang.org/x/tools/go/ssa"
@@ -76,8 +77,14 @@ func mLenOfLoad(owner, field string) func(ssa.Value) bool {
 // passesUnder: under the assumptions `as`, every path from the entry of fn to target
 // passes call `chk` and its success outcome. Returns "" if so, otherwise the reason.
 func passesUnder(fn *ssa.Function, as []atomAssume, chk *ssa.Call, rv ssa.Value, target ssa.Instruction) string {
+	return passesUnderF(fn, as, chk, rv, target, nil)
+}
+
+// passesUnderF is passesUnder with helpers followed: the check and the target may sit in
+// functions called (transitively, statically) from fn for which follow returns true.
+func passesUnderF(fn *ssa.Function, as []atomAssume, chk *ssa.Call, rv ssa.Value, target ssa.Instruction, follow func(*ssa.Function) bool) string {
 	// (0) non-vacuity: under the assumptions both the check and the target are reachable
-	w0 := (&Walk{Fn: fn, Assume: assumeAll(as...)}).FromEntry()
+	w0 := (&Walk{Fn: fn, Assume: assumeAll(as...), Follow: follow}).FromEntry()
 	if w0.Reached[target] && !w0.Reached[chk] {
 		return "under these conditions the target is reachable but the check is never executed (it is nested under an extra condition)"
 	}
@@ -85,7 +92,7 @@ func passesUnder(fn *ssa.Function, as []atomAssume, chk *ssa.Call, rv ssa.Value,
 		return "vacuous: under the stated assumptions the target is unreachable (the rule's atoms no longer match the code)"
 	}
 	// (i) barrier at the check: target must be unreachable without executing it
-	w1 := &Walk{Fn: fn, Assume: assumeAll(as...), Visit: func(in ssa.Instruction, _ map[*ssa.Phi]Val) bool { return in != chk }}
+	w1 := &Walk{Fn: fn, Assume: assumeAll(as...), Follow: follow, Visit: func(in ssa.Instruction, _ Env) bool { return in != chk }}
 	w1.FromEntry()
 	if w1.overflow {
 		return "path exploration overflow"
@@ -93,18 +100,20 @@ func passesUnder(fn *ssa.Function, as []atomAssume, chk *ssa.Call, rv ssa.Value,
 	if w1.Reached[target] {
 		return "a path reaches the target without executing the check"
 	}
-	// (ii) failure outcome of the check must not reach the target
+	// (ii) failure outcome of the check must not reach the target. Since by (i) every path to the
+	// target executes the check, exploring from the entry with the check's result fixed to failure
+	// covers exactly the paths after a failed check.
 	if rv == nil {
 		return "the check's result is discarded"
 	}
 	fail := failAssumption(rv)
-	w2 := &Walk{Fn: fn, Assume: func(v ssa.Value) (Val, bool) {
+	w2 := &Walk{Fn: fn, Follow: follow, Assume: func(v ssa.Value) (Val, bool) {
 		if x, ok := fail(v); ok {
 			return x, true
 		}
 		return assumeAll(as...)(v)
 	}}
-	w2.After(chk)
+	w2.FromEntry()
 	if w2.overflow {
 		return "path exploration overflow"
 	}
@@ -112,6 +121,30 @@ func passesUnder(fn *ssa.Function, as []atomAssume, chk *ssa.Call, rv ssa.Value,
 		return "the target is reachable although the check failed (result ignored, overwritten or not leading to a failure exit)"
 	}
 	return ""
+}
+
+// followSamePkg follows unexported helpers of fn's own package (and function literals).
+func followSamePkg(fn *ssa.Function) func(*ssa.Function) bool {
+	return func(callee *ssa.Function) bool {
+		if callee.Parent() != nil {
+			return true
+		}
+		return callee.Pkg != nil && callee.Pkg == fn.Pkg && !token.IsExported(callee.Name())
+	}
+}
+
+// callsReached lists the call instructions matching pred among everything a followed
+// exploration of fn can reach.
+func callsReached(fn *ssa.Function, follow func(*ssa.Function) bool, pred func(*ssa.Call) bool) []*ssa.Call {
+	w := (&Walk{Fn: fn, Follow: follow}).FromEntry()
+	var out []*ssa.Call
+	for in := range w.Reached {
+		if call, ok := in.(*ssa.Call); ok && pred(call) {
+			out = append(out, call)
+		}
+	}
+	sort.Slice(out, func(i, j int) bool { return out[i].Pos() < out[j].Pos() })
+	return out
 }
 
 func errResult(call *ssa.Call) ssa.Value {
@@ -367,7 +400,7 @@ func ruleServerClientAuth12(c *Ctx, r *Report) {
 			store := st.Instr.(*ssa.Store)
 			// without the check
 			w1 := &Walk{Fn: fn}
-			w1.Visit = func(in ssa.Instruction, env map[*ssa.Phi]Val) bool {
+			w1.Visit = func(in ssa.Instruction, env Env) bool {
 				if in == chk {
 					return false
 				}
@@ -382,7 +415,7 @@ func ruleServerClientAuth12(c *Ctx, r *Report) {
 			// with the check failing
 			fail := failAssumption(errResult(chk))
 			w2 := &Walk{Fn: fn, Assume: fail}
-			w2.Visit = func(in ssa.Instruction, env map[*ssa.Phi]Val) bool {
+			w2.Visit = func(in ssa.Instruction, env Env) bool {
 				if in == store {
 					if v := w2.eval(store.Val, env); !(v.Kind == 1 && !v.B) {
 						bad = "the flag can be stored as " + v.String() + " after VerifyClientCert failed"
